@@ -95,6 +95,16 @@ func (m *MatchHTTP) Match(cx *layer4.Connection) (bool, error) {
 			return false, nil
 		}
 
+		// the header block has to be complete: http.ReadRequest takes a header line that is cut short by the
+		// end of the prefetched data for a whole line and fails with a malformed header error instead of
+		// asking for more data
+		if !bytes.Contains(data, []byte("\n\r\n")) && !bytes.Contains(data, []byte("\n\n")) {
+			if len(data) >= layer4.MaxMatchingBytes {
+				return false, layer4.ErrMatchingBufferFull
+			}
+			return false, layer4.ErrConsumedAllPrefetchedBytes
+		}
+
 		// use bufio reader which exactly matches the size of prefetched data,
 		// to not trigger all bytes consumed error
 		bufReader := bufio.NewReaderSize(cx, len(data))
